@@ -1,7 +1,12 @@
 //! One monitor per property.
 use crate::report::Ctx;
 
+pub mod budget;
+pub mod evalsym;
+pub mod hashing;
 pub mod rules;
+pub mod tables;
+pub mod tt;
 
 pub fn run(ctx: &Ctx) -> i32 {
     if let Err(e) = crate::selftest() {
@@ -10,6 +15,11 @@ pub fn run(ctx: &Ctx) -> i32 {
     }
     match ctx.id.as_str() {
         "C01" | "C02" | "C17" => rules::run(ctx),
+        "C10" => tables::run(ctx),
+        "C11" => hashing::run(ctx),
+        "C12" => budget::run(ctx),
+        "C14" => evalsym::run(ctx),
+        "C15" => tt::run(ctx),
         other => {
             say!("INCONCLUSIVE: no monitor for property {}", other);
             2
